@@ -114,7 +114,7 @@ def standin_clientsim(prop, tier, seed, scratch, root):
         row['undecided'] = next(r for r in rs if not r.get('ran')).get('reason', 'simulation did not run'); return row
     bad = [r for r in rs if r['fails']]
     row['bound'] = ('%d scenarios (seeds %d..%d): 0-3 concurrent callers x <=4 requests each (single / list, failing at any index, with partial output, binary payloads), caller cancellation, '
-                    '<=4 notification bursts of <=3 names, reply delays around the 100 ms re-idle window, reply chunking 1..7 bytes, faults (cut at any byte, close, garbage, ACK to idle), one scenario in six over a transport that holds 3 bytes with a server that does not read for 30 / 150 / 400 ms after a reply (writes stall mid-line), password handshakes, album art loads (embedded / cover file / readpicture unknown / neither / other error; sizes 0..20000, chunk limits 1..8192, with and without MIME type); '
+                    '<=4 notification bursts of <=3 names, reply delays around the 100 ms re-idle window, reply chunking 1..7 bytes, faults (cut at any byte, close, garbage, ACK to idle), one scenario in six over a transport whose client-to-server direction holds 3 bytes with a server that does not read for 30 / 150 / 400 ms after a reply (writes stall mid-line), password handshakes, album art loads (embedded / cover file / readpicture unknown / neither / other error; sizes 0..20000, chunk limits 1..8192, with and without MIME type); '
                     'idle replies are written atomically whenever requests exist (the split case is known finding C04.cancel_safe)' % (per * workers, base, base + per * workers - 1))
     if not bad:
         js = [json.loads(r.get('full_output', r['output']).strip().split('\n')[-1]) for r in rs]
